@@ -629,3 +629,75 @@ func specDefaultEntry() *Entry {
 //@   ensures [C01.emit] implies(old(specAdmits(specDefaultEntry().level, AlwaysLevel)), ghost.emits > old(ghost.emits))
 //@   at call logctxctx assert [C01.sev] callee.lvl == AlwaysLevel
 //@
+
+// ---------------------------------------------------------------- C11 format state machine
+
+// The three formats of property C11.
+const (
+	fmtJSON   = 0
+	fmtColor  = 1
+	fmtLogfmt = 2
+)
+
+// specFormat: the format a logger is in (decided by its two mode bits).
+func specFormat(e *Entry) int {
+	if e.useJSON {
+		return fmtJSON
+	}
+	if e.useColor {
+		return fmtColor
+	}
+	return fmtLogfmt
+}
+
+// specFmtInv is the representation invariant INV-fmt: the two mode bits are never both set.
+func specFmtInv(e *Entry) bool { return !(e.useJSON && e.useColor) }
+
+// specLastBool: value selected by a variadic "mode" argument list: the last one, def if none.
+func specLastBool(b []bool, def bool) bool {
+	if len(b) == 0 {
+		return def
+	}
+	return b[len(b)-1]
+}
+
+//@ func (*Entry).JSONMode
+//@   props C11
+//@   requires s != nil && specFmtInv(s)
+//@   ensures [C11.getter] result == (specFormat(s) == fmtJSON)
+
+//@ func (*Entry).ColorMode
+//@   props C11
+//@   requires s != nil && specFmtInv(s)
+//@   ensures [C11.getter] result == (specFormat(s) == fmtColor)
+
+//@ func (*Entry).SetJSONMode
+//@   props C11 C10
+//@   requires s != nil && specFmtInv(s)
+//@   assigns s.useJSON, s.useColor
+//@   ensures [C11.inv] specFmtInv(s)
+//@   ensures [C11.json-on] implies(specLastBool(b, true), specFormat(s) == fmtJSON)
+//@   ensures [C11.json-off] implies(!specLastBool(b, true) && old(specFormat(s)) == fmtJSON, specFormat(s) == fmtLogfmt)
+//@   ensures [C11.json-keep] implies(!specLastBool(b, true) && old(specFormat(s)) != fmtJSON, specFormat(s) == old(specFormat(s)))
+//@   ensures [C10.ret] result == s
+//@   loop 1 invariant [C11.last] rangeindex >= -1 && rangeindex < len(b) || rangeindex == -1
+//@   loop 1 invariant [C11.last] mode == ite(rangeindex < 0, true, b[rangeindex])
+
+//@ func (*Entry).SetColorMode
+//@   props C11 C10
+//@   requires s != nil && specFmtInv(s)
+//@   assigns s.useJSON, s.useColor
+//@   ensures [C11.inv] specFmtInv(s)
+//@   ensures [C11.color-on] implies(specLastBool(b, true), specFormat(s) == fmtColor)
+//@   ensures [C11.color-off] implies(!specLastBool(b, true), specFormat(s) == fmtLogfmt)
+//@   ensures [C10.ret] result == s
+//@   loop 1 invariant [C11.last] rangeindex >= -1 && rangeindex < len(b) || rangeindex == -1
+//@   loop 1 invariant [C11.last] mode == ite(rangeindex < 0, true, b[rangeindex])
+
+//@ func (*PrintCtx).setentry
+//@   props C11 C16
+//@   requires s != nil && e != nil && specFmtInv(e)
+//@   assigns s.buf, s.jsonMode, s.noColor, s.layout, s.utcTime, s.valueStringer, s.lvl, s.kvps
+//@   ensures [C11.derive] s.jsonMode == (specFormat(e) == fmtJSON) && s.noColor == (specFormat(e) != fmtColor)
+//@   ensures [C16.copy] s.layout == e.timeLayout && s.utcTime == e.modeUTC
+//@   ensures len(s.buf) == 0
